@@ -121,6 +121,25 @@ def witnesses(tier, seed):
                 for rhs in ('flat', 'flatexpr'):
                     k += 1
                     W.append(mk_write(T3[k % 3], dims, axes, op, rhs))
+    # strided columns wide enough for whole SIMD chunks (the scatter/gather helpers of the vectorised view assignment step over
+    # 4, 8 or 16 selected columns): 8/9/16/17 selected columns at steps 2 and 3, both view kinds, every operator
+    k = 0
+    for (M, N, st) in [(2, 17, 2), (3, 33, 2), (2, 25, 3), (2, 50, 3)] + ([] if quick else [(3, 16, 2), (2, 34, 2), (4, 65, 2), (2, 97, 3)]):
+        for kind in ('seq', 'fseq'):
+            for (r0, c0) in ((Axis(kind, 0, M, 1), Axis(kind, 0, N, st)), (Axis(kind, 1, M, 1), Axis(kind, 1, N, st))):
+                for op in ALLOPS:
+                    k += 1
+                    if admissible([r0, c0], [M, N]):
+                        w = mk_write(T3[k % 3], [M, N], [r0, c0], op, ['scalar', 'tensor', 'expr'][(k // 5) % 3])
+                        w.params['wide_strided'] = True      # C06 keeps all of these in its macro-targeted sub-corpus
+                        W.append(w)
+    # writes through the diagonal view diag(A)
+    k = 0
+    for M in (1, 2, 3, 4, 5, 8, 9, 17):
+        for op in ALLOPS:
+            for rhs in ('scalar', 'tensor', 'expr'):
+                k += 1
+                W.append(mk_write(T3[k % 3], [M, M], [Axis('diag')], op, rhs))
     return group_sort(W)
 
 
